@@ -550,6 +550,106 @@ pub fn case_vectors(bytes: &[u8], ctx: &mut Ctx) -> CaseResult {
     Ok(())
 }
 
+// ---------------------------------------------------------------------------
+// long lists (see vstream::biglist)
+
+fn big() -> &'static Vec<vstream::biglist::BigList> {
+    static B: OnceLock<Vec<vstream::biglist::BigList>> = OnceLock::new();
+    B.get_or_init(vstream::biglist::big_lists)
+}
+
+fn big_lengths(b: &vstream::biglist::BigList, tier: Tier) -> Vec<usize> {
+    let wire = (b.more)(0, 1, 0).len();
+    let heavy = !b.slow || tier == Tier::Thorough;
+    vstream::biglist::lengths(b.elem_size_of, wire, heavy)
+}
+
+fn enum_big(tier: Tier, shard: usize, n: usize, emit: &mut dyn FnMut(&[u8]) -> bool) {
+    let seeds: u8 = match tier {
+        Tier::Quick => 1,
+        Tier::Thorough => 5,
+    };
+    let mut idx = 0usize;
+    for (li, b) in big().iter().enumerate() {
+        for ni in 0..big_lengths(b, tier).len() as u8 {
+            for seed in 0..seeds {
+                // spread the expensive (long) cases over the shards
+                let mine = idx % n == shard;
+                idx += 1;
+                if mine && !emit(&[li as u8, ni, seed, u8::from(tier == Tier::Thorough)]) {
+                    return;
+                }
+            }
+        }
+    }
+}
+
+/// bytes = [list type, length index, seed, tier of the length table]
+pub fn case_big(bytes: &[u8], ctx: &mut Ctx) -> CaseResult {
+    let mut s = Src::new(bytes);
+    let (li, ni, seed, th) = (s.u8() as usize, s.u8() as usize, u64::from(s.u8()), s.u8());
+    let b = &big()[li % big().len()];
+    let lens = big_lengths(b, if th & 1 == 1 { Tier::Thorough } else { Tier::Quick });
+    let n = lens[ni % lens.len()];
+    let e = &b.entry;
+    let v = (b.make)(n, seed);
+    let what = format!("{} with {n} elements (pre-allocation limit of the element type: {} elements), seed {seed}", b.name, if b.elem_size_of > 0 { (vstream::biglist::PREALLOC_BYTES / b.elem_size_of).to_string() } else { "none".into() });
+    let enc = match v.to_bytes() {
+        Ok(x) => x,
+        Err(err) => vfail!(type_sig("encode:well-formed-value-rejected"), "{what}: to_bytes fails with {err:?}"),
+    };
+    ctx.add_inner(2);
+    match (e.from_bytes)(&enc) {
+        Ok(d) => {
+            vensure!(d.eq_dyn(&*v), type_sig("roundtrip:from_bytes-differs"), "{what}: from_bytes(to_bytes(v)) != v; encoding {} bytes", enc.len());
+            vensure!(
+                d.to_bytes().ok().as_ref() == Some(&enc),
+                type_sig("canonicity:valid-encoding-not-reproduced"),
+                "{what}: to_bytes(from_bytes(b)) != b for b = to_bytes(v) ({} bytes)",
+                enc.len()
+            );
+        }
+        Err(err) => vfail!(
+            type_sig("roundtrip:from_bytes-rejects-valid"),
+            "{what}: from_bytes(to_bytes(v)) = Err({err:?}); encoding {} bytes",
+            enc.len()
+        ),
+    }
+    match (e.from_bytes_unchecked)(&enc) {
+        Ok(d) => vensure!(d.eq_dyn(&*v), type_sig("roundtrip:from_bytes_unchecked-differs"), "{what}: from_bytes_unchecked(to_bytes(v)) != v"),
+        Err(err) => vfail!(
+            type_sig("roundtrip:from_bytes_unchecked-rejects-valid"),
+            "{what}: from_bytes_unchecked(to_bytes(v)) = Err({err:?}); encoding {} bytes",
+            enc.len()
+        ),
+    }
+    // (3): none of these types embeds a proof of space
+    {
+        use sha2::{Digest, Sha256};
+        let want: [u8; 32] = Sha256::digest(&enc).into();
+        vensure!(v.hash() == want, type_sig("hash:differs-from-sha256-of-encoding"), "{what}: hash() != sha256(to_bytes(v))");
+    }
+    let thr = if b.elem_size_of > 0 { vstream::biglist::PREALLOC_BYTES / b.elem_size_of } else { usize::MAX };
+    ctx.label(format!("big:{}", b.name));
+    ctx.label(if n > thr {
+        "big-length:above-prealloc-limit"
+    } else if n == thr {
+        "big-length:at-prealloc-limit"
+    } else {
+        "big-length:below-prealloc-limit"
+    });
+    if enc.len() > vstream::biglist::PREALLOC_BYTES {
+        ctx.label("big-encoding:above-2MiB");
+    }
+    if n >= thr {
+        let mut fp = Fnv::new();
+        fp.write(b.name.as_bytes()).write_u64(n as u64).write_u64(seed);
+        ctx.nontrivial(fp.finish());
+    }
+    ctx.render(|| format!("{what}: encoding {} bytes {}", enc.len(), hx(&enc)));
+    Ok(())
+}
+
 pub fn run_main() {
     let prop = Property {
         id: "C13",
@@ -608,6 +708,24 @@ pub fn run_main() {
                     "vector-container:FullBlock",
                     "vector-container:WeightProof",
                     "hash:v2-commitment-from-vector-files",
+                ],
+            },
+            SubCheck {
+                name: "big-lists",
+                about: "round trip, canonical re-encoding, trusted/untrusted agreement and hash rule for lists whose length lies around the decoder's 2 MiB pre-allocation limit of their element type (in memory and in wire bytes) and multiples of it; 18 element types x {bare list, list followed by a field} + RespondToPhUpdates",
+                source: Source::Enumerate { f: enum_big, exhaustive: false },
+                run: case_big,
+                inflight: false,
+                min_nontrivial: 150,
+                required_labels: &[
+                    "big-length:above-prealloc-limit",
+                    "big-length:at-prealloc-limit",
+                    "big-length:below-prealloc-limit",
+                    "big-encoding:above-2MiB",
+                    "big:Vec<CoinState>",
+                    "big:(Vec<Option<u64>>,u32)",
+                    "big:RespondToPhUpdates.coin_states",
+                    "big:Vec<G1Element>",
                 ],
             },
         ],
